@@ -1,5 +1,6 @@
 import Driver.Util
 import NutsModel.C11.Revocation
+import NutsModel.C11.Wire
 import NutsModel.Facts.C11
 open Lean Nuts.Drv Nuts.C11 Nuts
 
@@ -47,8 +48,23 @@ def parseUrl (j : Json) : Url :=
   | some b => .sl b (jStr j "issuer") (jNat j "page")
   | none => .raw (jStr j "raw")
 
-/-- strconv.Atoi on the generated inputs: optional '-', decimal digits -/
-def atoi (s : String) : Option Int := s.toInt?
+/-- strconv.Atoi: the wire model (NutsModel.C11.Wire) -/
+def atoi (s : String) : Option Int := Wire.atoi s
+
+/-- `wire` op: `Validate` run over the REGENERATED statement chain of the source (Facts.entryValidateChain), Atoi, Itoa -/
+def wireOp (j : Json) : String :=
+  let e : Wire.WireEntry := { id := jStr j "id", type := jStr j "type", purpose := jStr j "purpose", index := jStr j "idx", list := jStr j "raw" }
+  let urlOk := jBool j "urlok"
+  let v := match Wire.checksOfChain Nuts.Facts.C11.entryValidateChain with
+    | some cs => (match Wire.validateWith cs (fun _ => urlOk) e with
+        | .ok _ => "ok" | .err x => "err:" ++ x | .panic x => "panic:" ++ x)
+    | none => "unknown-check-in-source"
+  let av := match Wire.atoi e.index with | some i => toString i | none => "err"
+  let n := jInt j "n"
+  let it := Wire.itoa n
+  let rt := if Wire.atoi it == some n then "ok" else "DIFF"
+  s!"wire validate={v} atoi={av} itoa={it} rt={rt} intsize=64"
+
 
 def minutes (s : Int) : Int := if s ≥ 0 then (s + 30) / 60 else -((-s + 30) / 60)
 
@@ -334,6 +350,7 @@ def step (w : World) (j : Json) : World × List String :=
     let (v, w') := statusVerify env node { w with log := [] } c
     (w', [s!"verify {verdictStr v} dl=[{String.intercalate "," (w'.log.map urlName)}]"])
   | "bits" => (w, [bitsOp j])
+  | "wire" => (w, [wireOp j])
   -- second harness (vcr/verifier): node 1 is the verifier
   | "vreset" => ({ a := { base := bases[0]! }, b := { base := "https://verifier.example" } }, ["vreset"])
   | "vregister" =>
